@@ -428,6 +428,44 @@ def gen_manip(S, info):
     if months is None:
         raise GenError('truhlar_calendarize: month table not found')
     out.append('def months : List String := %s' % lean(months))
+    # AutoAux / AutoABS constants
+    def thresholds(fn, var):
+        out = []
+        for n in ast.walk(fn):
+            if isinstance(n, ast.If) and isinstance(n.test, ast.Compare) and ast.unparse(n.test.left) == 'Z' and len(n.test.ops) == 1 \
+                    and isinstance(n.test.ops[0], ast.Gt) and len(n.body) == 1 and isinstance(n.body[0], ast.Assign) \
+                    and ast.unparse(n.body[0].targets[0]) == var:
+                out.append((lit(n.test.comparators[0]), lit(n.body[0].value)))
+        return sorted(out)
+
+    def decimal_rat(x):
+        from fractions import Fraction
+        f = Fraction(repr(x)) if not isinstance(x, int) else Fraction(x)
+        return '(%d / %d : Rat)' % (f.numerator, f.denominator)
+
+    def float_list(fn, name):
+        for n in ast.walk(fn):
+            if isinstance(n, ast.Assign) and ast.unparse(n.targets[0]) == name:
+                v = lit(n.value, name)
+                return v
+        raise GenError('%s: %s not found' % (fn.name, name))
+    aa = S.func('manip.py', 'autoaux_basis')
+    ab = S.func('manip.py', 'autoabs_basis')
+    out.append('/-- AutoAux: (Z threshold, lval) and (Z threshold, linc): `if Z > t: var = v` in source order -/')
+    out.append('def autoauxLval : List (Nat × Nat) := %s' % lean(thresholds(aa, 'lval')))
+    out.append('def autoauxLinc : List (Nat × Nat) := %s' % lean(thresholds(aa, 'linc')))
+    out.append('def autoabsLval : List (Nat × Nat) := %s' % lean(thresholds(ab, 'lval')))
+    out.append('def flaux : List Rat := [%s]' % ', '.join(decimal_rat(x) for x in float_list(aa, 'flaux')))
+    out.append('def blauxBig : List Rat := [%s]' % ', '.join(decimal_rat(x) for x in float_list(aa, 'blaux_big')))
+    out.append('def bSmall : Rat := %s' % decimal_rat(float_list(aa, 'b_small')))
+    lm = [n for n in ast.walk(aa) if isinstance(n, ast.Assign) and ast.unparse(n.targets[0]) == 'lmax_aux']
+    lm2 = [n for n in ast.walk(ab) if isinstance(n, ast.Assign) and ast.unparse(n.targets[0]) == 'lmax_aux']
+    if len(lm) != 1 or len(lm2) != 1:
+        raise GenError('lmax_aux assignment not found uniquely')
+    out.append('def autoauxLmaxExpr : String := %s' % lstr(ast.unparse(lm[0].value)))
+    out.append('def autoabsLmaxExpr : String := %s' % lstr(ast.unparse(lm2[0].value)))
+    abn, abd = signature(ab)
+    out.append('def autoabsDefaults : List (String × String) := %s' % lean(list(zip(abn[len(abn) - len(abd):], [repr(x) for x in abd]))))
     info['manip_literals'] = dict(mgZero=zero, usegOne=units[0], augOne=gunits[0], augFormat=gfmt[0])
     out += ['', 'end BSE.Gen.Manip', '']
     return '\n'.join(out)
